@@ -284,7 +284,7 @@ def run(ctx):
     res = CR.corpus(ctx.seed, 160 if ctx.quick else 500, log=vlib.log)
     CR.corpus_done(res)
     compile_known = 0
-    must_compile = {"DocListForm", "DocListFormE", "DocBraces", "ZeroArr", "PinnedDef", "MixedDef", "KfAsUnit", "Foo"}
+    must_compile = {"DocListForm", "DocListFormE", "DocBraces", "ZeroArr", "PinnedDef", "MixedDef", "KfAsUnit", "Foo", "OptGenField"}
     for ident, why in res["rejected"].items():
         if ident.startswith("query:"):
             continue
